@@ -244,11 +244,42 @@ def run_isolated(module, doc):
     raise HarnessError('isolated run crashed in the harness:\n%s' % data)
 
 
+def call_isolated(func, *args):
+    """func(*args) in a forked child; returns its (picklable) result.  Exceptions in the child are harness errors."""
+    import pickle
+    read_fd, write_fd = os.pipe()
+    pid = os.fork()
+    if pid == 0:
+        code = 0
+        try:
+            os.close(read_fd)
+            try:
+                payload = ('ok', func(*args))
+            except BaseException:  # pylint: disable=broad-except
+                payload = ('crash', traceback.format_exc())
+            with os.fdopen(write_fd, 'wb') as handle:
+                pickle.dump(payload, handle)
+        except BaseException:  # pylint: disable=broad-except
+            code = 1
+        finally:
+            os._exit(code)  # pylint: disable=protected-access
+    os.close(write_fd)
+    with os.fdopen(read_fd, 'rb') as handle:
+        blob = handle.read()
+    os.waitpid(pid, 0)
+    if not blob:
+        raise HarnessError('isolated call died without a result')
+    status, data = pickle.loads(blob)
+    if status != 'ok':
+        raise HarnessError('isolated call crashed:\n%s' % data)
+    return data
+
+
 def _alarm_handler(signum, frame):  # pylint: disable=unused-argument
     raise RunTimeout()
 
 
-RUN_WALL_LIMIT = int(os.environ.get('VERIF_RUN_WALL', '60'))
+RUN_WALL_LIMIT = int(os.environ.get('VERIF_RUN_WALL', '600'))
 
 
 def guarded_execute(module, doc):
@@ -289,10 +320,17 @@ class ChunkOut(object):
         self.viol = {}        # sig -> dict(first occurrence)
         self.viol_count = collections.Counter()
         self.samples = []
-        self.digest = hashlib.sha256()
+        self.digest = 0           # sum (mod 2**256) of per-run digests: independent of chunking and worker count
         self.sim_events = 0
         self.steps = 0
         self.truncated = False
+
+
+_DIGEST_MOD = 1 << 256
+
+
+def _run_digest_int(index, res):
+    return int.from_bytes(hashlib.sha256(('%d:%s' % (index, res.digest())).encode()).digest(), 'big')
 
 
 def _run_chunk(args):
@@ -321,7 +359,7 @@ def _run_chunk(args):
         out.sched.add(h)
         if res.nontrivial:
             out.sched_nontrivial.add(h)
-        out.digest.update(res.digest().encode())
+        out.digest = (out.digest + _run_digest_int(index, res)) % _DIGEST_MOD
         if len(out.samples) < 2 and (res.nontrivial or index == start):
             out.samples.append({'index': index, 'run_seed': rseed, 'schedule': doc,
                                 'signature': repr(res.sched_sig)[:400]})
@@ -330,7 +368,6 @@ def _run_chunk(args):
             if v['sig'] not in out.viol:
                 out.viol[v['sig']] = {'sig': v['sig'], 'clause': v['clause'], 'detail': v['detail'],
                                       'index': index, 'run_seed': rseed, 'doc': doc}
-    out.digest = out.digest.hexdigest()
     return start, out
 
 
@@ -352,7 +389,7 @@ class Batch(object):
         self.wall = 0.0
 
     def digest(self):
-        return hashlib.sha256(''.join(self.digests).encode()).hexdigest()
+        return '%064x' % (sum(self.digests) % _DIGEST_MOD)
 
 
 def run_batch(module, seed, tier, n_runs, wall_budget, extra=None, workers=None, chunk=None, first_index=0):
